@@ -24,7 +24,7 @@ RULES = {
           "the parent's mapping objects",
     "R4": "ExperimentSpace.from_screen passes the screen's mapping objects; sizes derive from the mapping tuple",
 }
-MIN = {"R1": 12, "R2": 3, "R3": 5, "R4": 3}
+MIN = {"R1": 12, "R2": 2, "R3": 5, "R4": 3}
 TRUSTED = ["python ast semantics", "numpy boolean indexing keeps row order", "call graph: typed resolution + name-CHA "
            "fallback (over-approximate); dynamic class lookup via introspection.get_class is assumed to yield "
            "subclasses of the declared base"]
